@@ -52,7 +52,7 @@ def gen_case(rng, maxlen):
             t = Fr(rng.randint(-16, 64), 8); ops.append(["T", float(t)]); nxt = t + dt
         else:
             ops.append(["B", rng.choice([0.25, 0.5, 0.75, 0.1, 0.9]), rng.randint(0, 1), rng.randint(1, 2**31)])
-    return {"nrx": nrx, "ncols": ncols, "dt": float(dt), "t0": float(t0), "ops": ops,
+    return {"nrx": nrx, "ncols": ncols, "dt": float(dt), "t0": float(t0), "ops": ops, "layout": rng.choice(["c", "c", "transposed", "window"]),
             "nontrivial": bool(wrapped and clamped)}
 
 def gen_cases(seed, tier):
@@ -77,7 +77,11 @@ def impl_case(case):
     from bioscrape.simulator import ArrayDelayQueue
     from bioscrape.random import py_seed_random, py_rand_int
     nrx, ncols = case["nrx"], case["ncols"]
-    q = ArrayDelayQueue(np.zeros((nrx, ncols)), case["dt"], case["t0"])
+    # the count matrix is the caller's: any 2-D float64 array will do, C-contiguous or not (a transposed allocation, a column window of a
+    # larger array)  (seeded change S8_C20: the head column read through a raw pointer with a C-contiguous offset)
+    lay = case.get("layout", "c")
+    mat = np.zeros((nrx, ncols)) if lay == "c" else (np.zeros((ncols, nrx)).T if lay == "transposed" else np.zeros((nrx, ncols + 3))[:, 1:1 + ncols])
+    q = ArrayDelayQueue(mat, case["dt"], case["t0"])
     out = []; raws = []; watch = []   # (object, dump) pairs that must stay unchanged
     for op in case["ops"]:
         if op[0] == "A":
